@@ -46,7 +46,7 @@ def feature_case(fname, N, T, ul_kind="brownian"):
     return fn
 
 
-def modes_case(N, T, H, crit_name, hedge_kind, controls=False):
+def modes_case(N, T, H, crit_name, hedge_kind, controls=False, resim=False):
     """A hedger whose model ignores prev_hedge (stepwise branch) equals the vectorised hedger."""
 
     def fn(c):
@@ -69,6 +69,12 @@ def modes_case(N, T, H, crit_name, hedge_kind, controls=False):
             for h in range(H):
                 c.check("last column repeats [%d,%d] (vectorised)" % (n, h), api.eq(elem(hv, n, h, T - 1), elem(hv, n, h, T - 2)))
                 c.check("last column repeats [%d,%d] (stepwise)" % (n, h), api.eq(elem(hs, n, h, T - 1), elem(hs, n, h, T - 2)))
+        if resim:
+            # the same two hedgers after the underlier has been simulated again with the same shape: still equal, on the new series
+            cm.set_buffers(c, env["ul"], "again", N, T)
+            hv2, hs2 = vec.compute_hedge(deriv, hedge), stp.compute_hedge(deriv, hedge)
+            c.check("after a same-shape re-simulation: hedge equal", api.tensor_eq(hv2, hs2))
+            c.check("after a same-shape re-simulation: pl equal", api.tensor_eq(vec.compute_pl(deriv, hedge), stp.compute_pl(deriv, hedge)))
         if controls and T >= 3:
             c.control("control:hedge shifted", api.eq(elem(hv, 0, 0, 1), elem(hs, 0, 0, 0)))
 
@@ -119,6 +125,8 @@ def cases():
         cs.append(Case("feature/%s/localvol" % f, feature_case(f, 2, 3, "localvol"), encodes=enc, bounds="N=2 T=3"))
     for f in feats:
         cs.append(Case("feature/%s/T6" % f, feature_case(f, 3, 6, "heston"), tier="thorough", encodes=enc, bounds="N=3 T=6", timeout=120))
+    cs.append(Case("modes/es/underlier/resimulated", modes_case(2, 3, 1, "es", "underlier", resim=True), encodes=enc,
+                   bounds="N=2 T=3 H=1; both hedgers evaluated again after a same-shape re-simulation", timeout=60))
     cs.append(Case("modes/es/underlier/T2", modes_case(2, 2, 1, "es", "underlier"), encodes=enc, bounds="N=2 T=2 H=1 (maturity == dt: one hedging step)", timeout=60))
     cs.append(Case("modes/es/underlier", modes_case(2, 3, 1, "es", "underlier", controls=True), encodes=enc, bounds="N=2 T=3 H=1", timeout=60))
     cs.append(Case("modes/entropic/two_primaries", modes_case(2, 3, 2, "entropic", "two_primaries"), encodes=enc, bounds="N=2 T=3 H=2", timeout=60))
